@@ -208,7 +208,7 @@ example : revocationFinal [.nonRevokable, .ok] = (.ok, none) := by decide
 example : revocationFinal [.ok, .unknown, .unknown] = (.unknown, some 1) := by decide
 
 example : Holds { vec := [.unknown, .revoked], scheme := .x509, iface := .client, action := .enforce,
-                  validatorError := false, methods := [], serverErrors := [] }
+                  validatorError := false, methods := [], serverErrors := [], identityPlugin := false }
     { outcome := .unknown, named := some 0, accepted := false, calls := 1, chainLen := some 2,
       signingTime := some false, usedIface := some .client } = false := by decide
 
